@@ -261,6 +261,12 @@ func runC12(c *Ctx) {
 						if pv.String() == "len(data)" || leqLen(ef, pv) {
 							return true
 						}
+						// min(x, len(data)) is at most len(data)
+						for _, a := range minArgs(v) {
+							if z.Of(a).String() == "len(data)" {
+								return true
+							}
+						}
 						phi, ok := v.(*ssa.Phi)
 						if !ok || depth > 3 {
 							return false
@@ -464,6 +470,15 @@ func runC12(c *Ctx) {
 							switch {
 							case isZeroConst(ed.v):
 							case remaining(ev) && hasFact(ef, func(ft Fact) bool { return eofFact(ft, false) }):
+							case func() bool {
+								// min(n, pkgEnd - Offset()) is at most what remains
+								for _, a := range minArgs(ed.v) {
+									if remaining(z.Of(a)) {
+										return true
+									}
+								}
+								return false
+							}() && hasFact(ef, func(ft Fact) bool { return eofFact(ft, false) }):
 							case hasFact(ef, func(ft Fact) bool {
 								if ft.Y == nil {
 									return false
@@ -620,4 +635,17 @@ func isOffsetValue(m *Module, v ssa.Value, offsetM *ssa.Function) bool {
 		return true
 	}
 	return false
+}
+
+// minArgs: the arguments of the builtin min if v (through integer conversions)
+// is a call of it.
+func minArgs(v ssa.Value) []ssa.Value {
+	call, ok := stripConv(v).(*ssa.Call)
+	if !ok {
+		return nil
+	}
+	if bi, ok := call.Common().Value.(*ssa.Builtin); ok && bi.Name() == "min" {
+		return call.Common().Args
+	}
+	return nil
 }
